@@ -414,7 +414,8 @@ def floordiv(x, y, out=None, out_like=None, sizing='optimal', method='raw', **kw
         return real_part + 1j*imag_part
     
     def _floordiv_raw(x, y, n_frac):
-        precision_cast = (lambda m: np.array(m, dtype=object)) if n_frac >= _n_word_max else (lambda m: m)
+        # (python integers also when aligning the codes - operands with negative fraction lengths - needs more than 64 bits)
+        precision_cast = (lambda m: np.array(m, dtype=object)) if (n_frac >= _n_word_max or _needs_python_int(x, y, n_frac)) else (lambda m: m)
         return ((x.val * precision_cast(2**(n_frac - x.n_frac))) // (y.val * precision_cast(2**(n_frac - y.n_frac)))) * precision_cast(2**n_frac)
 
     def _floordiv_raw_complex(x, y, n_frac):
